@@ -30,7 +30,7 @@ import (
 )
 
 const (
-	caseTimeout = 5 * time.Second
+	caseTimeout = 4 * time.Second
 	heapLimit   = 3 << 30
 )
 
